@@ -7,6 +7,7 @@ from ...propagators.sgp4 import Sgp4, wgs72
 from .cov import load_cov, dump_cov
 from .commons import (
     xml2dict,
+    as_list,
     kvn2dict,
     parse_date,
     CcsdsError,
@@ -194,7 +195,7 @@ def _loads_xml(string):
 
     ud_dict = data["body"]["segment"]["data"].get("userDefinedParameters", {})
 
-    for field in ud_dict.get("USER_DEFINED", []):
+    for field in as_list(ud_dict.get("USER_DEFINED")):
         ud = orb._data.setdefault("ccsds_user_defined", {})
         ud[field.attrib["parameter"]] = field.text
 
